@@ -1063,7 +1063,9 @@ class Engine:
         s.viol.append(v)
         if s.o['verbose']:
             print('  VIOL', kind, msg, v['where'], file=sys.stderr)
-        if len(s.viol) >= s.o['max_viol']:
+        if label and label.startswith('WITNESS') and s.o.get('witness_stop'):
+            s.aborted = 'witness'
+        elif len(s.viol) >= s.o['max_viol']:
             s.aborted = 'violation limit'
 
     def where(s, st):
